@@ -200,6 +200,10 @@ func cmdPerms(args []string) int {
 				client = strings.ToUpper(client)
 			}
 			w, a := wg.name(), ag.name()
+			if rng.Chance(8) {
+				// an account name with a slash of its own: the wallet is what precedes the FIRST slash
+				a = []string{"backup/" + a, a + "/1", "x/Account 0"}[rng.Intn(3)]
+			}
 			path := w + "/" + a
 			switch rng.Intn(30) {
 			case 0:
